@@ -259,6 +259,8 @@ class Engine:
 
     # ---- store -------------------------------------------------------------------------
     def read(self, st, loc):
+        if loc[0] == "I" and loc[1][0] == "A1" and is_c(loc[2]) and loc[2][1] == 0:
+            loc = loc[1][1]
         v = st.store.get(loc)
         if v is not None:
             return self._with_overrides(st, loc, v)
@@ -339,6 +341,13 @@ class Engine:
     def havoc(self, st, loc, cid):
         while loc[0] == "S":
             loc = loc[1]
+        if loc[0] == "A1":
+            # written through a one-element slice view of a scalar: the scalar now holds element 0 of what the callee wrote
+            inner = loc[1]
+            for k in [k for k in st.store if k == inner or _is_child(k, inner)]:
+                del st.store[k]
+            st.store[inner] = ("index", ("havoc", cid, inner), C(0, "usize"))
+            return
         for k in [k for k in st.store if k == loc or _is_child(k, loc)]:
             del st.store[k]
         st.store[loc] = ("havoc", cid, loc)
@@ -400,6 +409,10 @@ class Engine:
         return loc
 
     def _index_loc(self, loc, idx):
+        if loc[0] == "S" and loc[1][0] == "A1":
+            if is_c(idx) and is_c(loc[2]) and idx[1] + loc[2][1] == 0:
+                return loc[1][1]
+            return ("I", loc[1], mk_bin("Add", loc[2], idx, "usize"))
         if loc[0] == "S":
             return ("I", loc[1], mk_bin("Add", loc[2], idx, "usize"))
         return ("I", loc, idx)
@@ -804,6 +817,16 @@ class Engine:
                     target_fn = f2
                     targs = ta
                     break
+        if target_fn is None and callee is not None and (callee.get("trait") or "").startswith("core::ops::function::Fn") and args:
+            # a closure passed down as `impl Fn*` / generic F and called there: after inlining, its value is known
+            cv = args[0]
+            if cv[0] == "ref":
+                cv = self.read(st, cv[1])
+            cf = _closure_fn(self, cv)
+            if cf is not None:
+                target_fn = cf
+                targs = None
+                callee = dict(callee, syn_inline=True)
         if target_fn is not None and len(st.frames) <= self.max_depth and (self.inline(target_fn, ev) or callee.get("syn_inline")) \
                 and not any(f0["fn"] is target_fn for f0 in st.frames):
             fid = self._nfid
@@ -914,13 +937,13 @@ def _array_len(ty):
 
 
 def _root_kind(loc):
-    while loc[0] in ("F", "I", "D", "S"):
+    while loc[0] in ("F", "I", "D", "S", "A1"):
         loc = loc[1]
     return loc[0]
 
 
 def _root_fid(loc):
-    while loc[0] in ("F", "I", "D", "S"):
+    while loc[0] in ("F", "I", "D", "S", "A1"):
         loc = loc[1]
     if loc[0] == "L":
         return loc[1]
@@ -1873,14 +1896,11 @@ def mk_optif(cond, payload):
 
 
 def _m_from_ref(eng, st, callee, args, ev):
+    """slice::from_ref / from_mut(&x): a one-element slice that *is* x (writes through it reach x)"""
     a = args[0]
     if a[0] != "ref":
         return NotImplemented
-    v = eng.read(st, a[1])
-    fid = st.frames[-1]["fid"]
-    loc = ("L", fid, "from_ref#%d" % ev["id"])
-    st.store[loc] = ("agg", "array", None, None, None, (v,))
-    return ("ref", ("S", loc, C(0, "usize"), C(1, "usize")))
+    return ("ref", ("S", ("A1", a[1]), C(0, "usize"), C(1, "usize")))
 
 
 def _opt_view(eng, st, t):
@@ -2045,6 +2065,8 @@ SLICE_MODELS = {
     "core::slice::<impl [T]>::get": _m_get,
     "core::slice::from_ref": _m_from_ref,
     "std::slice::from_ref": _m_from_ref,
+    "core::slice::from_mut": _m_from_ref,
+    "std::slice::from_mut": _m_from_ref,
     "core::cmp::PartialEq::eq": _m_opt_eq,
     "core::cmp::PartialEq::ne": lambda eng, st, callee, args, ev: _m_opt_eq(eng, st, callee, args, ev, negate=True),
     "core::convert::From::from": _m_from_bool,
